@@ -94,6 +94,14 @@ def _late_rule_skeletons():
         "stochastic-on-continuous", 2, base["states"], base["choices"],
         [("utility", ["consumption", "working", "health", "wealth"], "utility"), ("next_health", ["health"], "next"), ("next_wealth", ["wealth", "health"], "stoch")],
     )
+    out["stochastic-transition-on-continuous-state-with-valid-arguments"] = Skel(
+        "stochastic-on-continuous-valid-arguments", 2, base["states"], base["choices"],
+        [("utility", ["consumption", "working", "health", "wealth"], "utility"), ("next_health", ["health"], "next"), ("next_wealth", ["health", "_period"], "stoch")],
+    )
+    out["stochastic-transition-on-continuous-state-next-to-a-valid-stochastic-state"] = Skel(
+        "stochastic-on-continuous-plus-valid-stochastic", 2, base["states"], base["choices"],
+        [("utility", ["consumption", "working", "health", "wealth"], "utility"), ("next_wealth", ["health"], "stoch"), ("next_health", ["health", "working"], "stoch")],
+    )
     out["stochastic-transition-depends-on-continuous-variable"] = Skel(
         "stochastic-depends-on-continuous", 2, base["states"], base["choices"],
         [("utility", ["consumption", "working", "health", "wealth"], "utility"), ("next_health", ["health", "wealth"], "stoch"), ("next_wealth", ["wealth", "consumption"], "next")],
@@ -124,7 +132,9 @@ class RunInst:
 def run_family(tier):
     from .skeletons import aux_filter_skeleton
 
-    extra = [aux_filter_skeleton(), filter_only_state_skeleton(), transition_only_state_skeleton()]
+    from .skeletons import unequal_stochastic_skeleton
+
+    extra = [aux_filter_skeleton(), filter_only_state_skeleton(), transition_only_state_skeleton(), unequal_stochastic_skeleton()]
     return [RunInst(s) for s in skeletons(tier) + extra]
 
 
